@@ -192,7 +192,8 @@ Eligible(n, v, target, anchor, minconf, admitted) ==
     /\ n \in known /\ ninfo[n].v = v
     /\ v > Dust
     /\ txs[ninfo[n].t].mined # -1 /\ txs[ninfo[n].t].mined <= anchor          \* mined, at or below the anchor
-    /\ target - txs[ninfo[n].t].mined >= minconf                               \* confirmations (the weaker of the two counts)
+    /\ target - txs[ninfo[n].t].mined >= (IF ninfo[n].int THEN minconf[1] ELSE minconf[2])   \* confirmations: the trusted count for the
+                                                                                \* wallet's own change (internal scope), else the untrusted one
     /\ Counted(n, target)                                                       \* unexpired and unspent
     /\ (IF Locked(n, target) THEN locks[n][1] \in admitted ELSE TRUE)          \* not locked by an owner the policy does not admit
 ProposalOK(r) ==
@@ -200,7 +201,7 @@ ProposalOK(r) ==
         target == tip + 1
         ins == UNION { { << p.steps[i].inputs[j][1], p.steps[i].inputs[j][2] >> : j \in DOMAIN p.steps[i].inputs } : i \in DOMAIN p.steps }
         nin == FoldSet(LAMBDA i, acc : acc + Len(p.steps[i].inputs), 0, DOMAIN p.steps)
-        minconf == Min2(r.trusted, r.untrusted)
+        minconf == << r.trusted, r.untrusted >>
     IN  /\ locks' = IF r.lock[1] >= 0
                      THEN [n \in DOMAIN locks \cup { x[1] : x \in ins } |->
                               IF n \in { x[1] : x \in ins } THEN << r.lock[1], target + r.lock[2] >> ELSE locks[n]]
